@@ -26,7 +26,7 @@ def default_atom_of_place(place):
 
 
 def paths(f, start, end_kind, atom_of_place=default_atom_of_place, discr_variants=None, max_paths=5000, max_len=400,
-          pure_calls=("::is_empty",), track_return=False, env0=None, call_atom=None):
+          pure_calls=("::is_empty",), track_return=False, env0=None, call_atom=None, track_local=0):
     """end_kind(block) -> None (keep going) | str (stop, path ends with that kind; evaluated BEFORE the block's statements for
     blocks other than the start).  discr_variants: callable(atom) -> [variant names] for ('discr', ..) atoms.
     track_return: record the value assigned to _0 (const int / atom) in Path.ret."""
@@ -132,6 +132,25 @@ def paths(f, start, end_kind, atom_of_place=default_atom_of_place, discr_variant
                     v = ("ref", eff)
                 elif bound is not None and bound[0] == "ref":
                     v = bound
+            elif k == "binop" and rv["op"] in ("Eq", "Ne", "Gt", "Ge", "Lt", "Le") and \
+                    any((z or (None,))[0] == "len" for z in (val_of_operand(env, rv["a"]), val_of_operand(env, rv["b"]))):
+                # `xs.len() > 0` and friends are the is_empty atom of the same container
+                x, y = val_of_operand(env, rv["a"]), val_of_operand(env, rv["b"])
+                op_ = rv["op"]
+                if y is not None and y[0] == "len" and x is not None and x[0] == "const":
+                    x, y = y, x
+                    op_ = {"Gt": "Lt", "Lt": "Gt", "Ge": "Le", "Le": "Ge"}.get(op_, op_)
+                if x is not None and x[0] == "len" and y is not None and y[0] == "const" and y[1] == 0:
+                    if op_ in ("Gt", "Ne"):
+                        v = ("atom", ("is_empty",) + tuple(x[1]), True)
+                    elif op_ in ("Eq", "Le"):
+                        v = ("atom", ("is_empty",) + tuple(x[1]), False)
+                    elif op_ == "Ge":
+                        v = ("const", 1)
+                    elif op_ == "Lt":
+                        v = ("const", 0)
+                elif x is not None and x[0] == "len" and y is not None and y[0] == "const" and y[1] == 1 and op_ in ("Ge", "Lt"):
+                    v = ("atom", ("is_empty",) + tuple(x[1]), op_ == "Ge")
             elif k == "binop" and rv["op"] in ("Eq", "Ne", "BitAnd", "BitOr"):
                 x, y = val_of_operand(env, rv["a"]), val_of_operand(env, rv["b"])
                 if x is not None and y is not None and x[0] == "const" and y[0] == "const":
@@ -142,7 +161,7 @@ def paths(f, start, end_kind, atom_of_place=default_atom_of_place, discr_variant
                     env.pop(dst["l"], None)
                 else:
                     env[dst["l"]] = v
-                if track_return and dst["l"] == 0:
+                if track_return and dst["l"] == track_local:
                     ret = v
         t = blk["term"]
         k = t["k"]
@@ -161,6 +180,14 @@ def paths(f, start, end_kind, atom_of_place=default_atom_of_place, discr_variant
                         v = ("atom", (cal.rsplit("::", 1)[1],) + tuple(at[1:]), False)
                 elif a is not None and a[0] == "atom":
                     v = ("atom", (cal.rsplit("::", 1)[1],) + tuple(a[1][1:]), False)
+            elif cal.endswith("::len") and t["args"] and len(t["args"]) == 1:
+                a = val_of_operand(env, t["args"][0])
+                if a is not None and a[0] == "ref":
+                    at = atom_of_place(a[1])
+                    if at is not None:
+                        v = ("len", tuple(at[1:]))
+                elif a is not None and a[0] == "atom":
+                    v = ("len", tuple(a[1][1:]))
             elif call_atom is not None and call_atom(t, lambda o: val_of_operand(env, o)) is not None:
                 v = call_atom(t, lambda o: val_of_operand(env, o))
             elif cal.endswith(("Deref>::deref", "::as_ref", "::as_slice", "::as_str", "::iter", "::borrow")) and t["args"]:
@@ -172,7 +199,7 @@ def paths(f, start, end_kind, atom_of_place=default_atom_of_place, discr_variant
                     env.pop(t["dst"]["l"], None)
                 else:
                     env[t["dst"]["l"]] = v
-                if track_return and t["dst"]["l"] == 0:
+                if track_return and t["dst"]["l"] == track_local:
                     ret = v if v is not None else ("call", cal, [val_of_operand(env, a_) for a_ in t["args"]])
             nxt = t.get("target")
             if nxt is None:
